@@ -71,6 +71,7 @@ func GenIterScript(r *Rng, hist map[string]int) []string {
 	}
 	add("list")
 	add("fold")
+	add("foldn %d", r.Pick(0, 1, 2, 7, 1000))
 	rounds := 1 + r.Intn(3)
 	for round := 0; round < rounds; round++ {
 		rev := r.Intn(2)
